@@ -7,6 +7,7 @@ require (
 	github.com/anishathalye/porcupine v1.3.0
 	github.com/gobwas/glob v0.2.3
 	github.com/youzan/ZanRedisDB v0.0.0
+	github.com/youzan/go-zanredisdb v0.6.3
 )
 
 require (
@@ -51,7 +52,6 @@ require (
 	github.com/twmb/murmur3 v1.1.5 // indirect
 	github.com/ugorji/go v0.0.0-20170107133203-ded73eae5db7 // indirect
 	github.com/xiang90/probing v0.0.0-20160813154853-07dd2e8dfe18 // indirect
-	github.com/youzan/go-zanredisdb v0.6.3 // indirect
 	github.com/youzan/gorocksdb v0.0.0-20201201080653-1a9b5c65c962 // indirect
 	go.uber.org/atomic v1.6.0 // indirect
 	go.uber.org/multierr v1.5.0 // indirect
